@@ -25,6 +25,7 @@ func (in *Interp) spawn(fr *Frame, fn V, args []V, site ssa.Instruction) {
 }
 
 func (in *Interp) chanSend(c ChanV, v V) {
+	in.specAbortIf("chan op in region")
 	if c.C == nil {
 		in.unsupported("send on nil channel (blocks forever)")
 	}
@@ -41,6 +42,7 @@ func (in *Interp) chanSend(c ChanV, v V) {
 }
 
 func (in *Interp) chanRecv(c ChanV) (V, bool) {
+	in.specAbortIf("chan op in region")
 	if c.C == nil {
 		in.unsupported("recv on nil channel")
 	}
@@ -60,6 +62,7 @@ func (in *Interp) chanRecv(c ChanV) (V, bool) {
 }
 
 func (in *Interp) chanClose(c ChanV) {
+	in.specAbortIf("chan op in region")
 	if c.C == nil {
 		in.goPanicStr("close of nil channel")
 	}
